@@ -117,6 +117,9 @@ func (x *Exec) substV(v Value, m map[*Term]*Term, memo map[*Term]*Term) Value {
 	case *SliceV:
 		return &SliceV{Obj: u.Obj, Path: u.Path, Off: x.b.Subst(u.Off, m, memo), Len: x.b.Subst(u.Len, m, memo), Cap: x.b.Subst(u.Cap, m, memo)}
 	case *PtrV:
+		if u.AltC != nil {
+			return &PtrV{AltC: x.b.Subst(u.AltC, m, memo), AltA: x.substV(u.AltA, m, memo).(*PtrV), AltB: x.substV(u.AltB, m, memo).(*PtrV)}
+		}
 		if u.Nil != nil {
 			return &PtrV{Obj: u.Obj, Path: u.Path, Nil: x.b.Subst(u.Nil, m, memo)}
 		}
@@ -170,6 +173,9 @@ func (x *Exec) twinObj(o *Object, t *twins, h Heap) *Object {
 func (x *Exec) twinVal(v Value, t *twins, h Heap) Value {
 	switch u := v.(type) {
 	case *PtrV:
+		if u.AltC != nil {
+			return &PtrV{AltC: u.AltC, AltA: x.twinVal(u.AltA, t, h).(*PtrV), AltB: x.twinVal(u.AltB, t, h).(*PtrV)}
+		}
 		if u.Obj == nil {
 			return u
 		}
@@ -674,7 +680,11 @@ func typeAt(t types.Type, path []PE) types.Type {
 }
 
 // verifyContract generates the VCs of one function against its own contract.
-func (ld *Loaded) verifyContract(c *Contract, useContracts bool) (vcs []*VC, err error) {
+func (ld *Loaded) verifyContract(c *Contract, useContracts bool, loopMode ...int) (vcs []*VC, err error) {
+	mode := 0 // 1: drop [aux] invariants, 2: ignore the loop contracts (unroll)
+	if len(loopMode) > 0 {
+		mode = loopMode[0]
+	}
 	defer func() {
 		if r := recover(); r != nil {
 			if u, ok := r.(Unsupported); ok {
@@ -691,6 +701,7 @@ func (ld *Loaded) verifyContract(c *Contract, useContracts bool) (vcs []*VC, err
 	for k := range insts {
 		x := NewExec(ld)
 		x.useContracts = useContracts
+		x.dropAux, x.ignoreLoops = mode == 1, mode == 2
 		st := &State{h: Heap{}}
 		x.setupGhost(c.Fn.Pkg, st)
 		x.initPackage(c.Fn.Pkg, st)
